@@ -199,6 +199,7 @@ func (r *SourceRunner) HandleDeploy(ctx context.Context, msg *workerpb.DeploySou
 	}
 
 	r.watermarkTicker = time.NewTicker(time.Millisecond * 200)
+	r.verifRetune()
 
 	deploymentCtx, cancel := context.WithCancel(context.Background())
 	r.stopLoop = cancel
